@@ -123,14 +123,14 @@ class ExprMixin:
     def dmap(self, st, v):
         return st.read("$dmap", Val.r(v.t))
 
-    def oblige(self, name, kind, goal, st, lineno=0):
+    def oblige(self, name, kind, goal, st, lineno=0, info=None):
         if self.spec_depth:
             return
         g = z3.simplify(goal) if z3.is_expr(goal) else z3.BoolVal(bool(goal))
         if z3.is_true(g):
             self.trivial.append((name, kind))
             return
-        self.obligations.append(Obligation(name, kind, goal, st.copy(), lineno))
+        self.obligations.append(Obligation(name, kind, goal, st.copy(), lineno, info))
 
     def need_int(self, st, vals, lineno):
         vals = [v for v in vals if v.ty not in ("int",) or True]
